@@ -208,4 +208,118 @@ theorem tokenize_gmlText (u : Bool) (X : NxOut) (hp : Printable X) : tokenize u 
   rw [this, ← gmlLinesT_fst, lexLines_ok _ _ hok, lexLines_last]
   rfl
 
+/-! ### the parser on that token stream -/
+
+def nodeVal (i : Nat) (p : Nat × Option Bool) : Val :=
+  .dict ([("id".toList, .int (i : Int)), ("label".toList, .str (natStr p.1))] ++
+         (match p.2 with
+          | none => []
+          | some b => [("bipartite".toList, .int (if b then 1 else 0))]))
+
+def edgeVal (e : Nat × Nat) : Val := .dict [("source".toList, .int (e.1 : Int)), ("target".toList, .int (e.2 : Int))]
+
+/-- what networkx makes of the graph name when it reads it back -/
+def nameVal (nm : Str) : Val :=
+  if nm = "()".toList then .tuple0 else if nm = "[]".toList then .list0 else .str nm
+
+def nodeItems : Nat → List (Nat × Option Bool) → List (Str × Val)
+  | _, [] => []
+  | i, p :: ps => ("node".toList, nodeVal i p) :: nodeItems (i + 1) ps
+
+def edgeItems (es : List (Nat × Nat)) : List (Str × Val) := es.map (fun e => ("edge".toList, edgeVal e))
+
+def headItems (X : NxOut) : List (Str × Val) :=
+  (if X.directed then [("directed".toList, .int 1)] else []) ++
+  (match X.name with
+   | none => []
+   | some nm => [("name".toList, nameVal nm)])
+
+def graphItems (X : NxOut) : List (Str × Val) :=
+  headItems X ++ nodeItems 0 X.nodes ++ edgeItems (nxEdges X.directed X.nodes.length X.tedges)
+
+theorem valOfString_natStr (v : Nat) : valOfString (natStr v) = .ok (.str (natStr v)) := by
+  unfold valOfString
+  rw [unescape_natStr]
+  have hd := natStr_digits v
+  have h1 : natStr v ≠ "()".toList := by
+    intro e; have := hd '(' (by rw [e]; decide); revert this; decide
+  have h2 : natStr v ≠ "[]".toList := by
+    intro e; have := hd '[' (by rw [e]; decide); revert this; decide
+  simp only [h1, h2, if_false]
+
+theorem valOfString_escape (nm : Str) : valOfString (escape nm) = .ok (nameVal nm) := by
+  simp only [valOfString, unescape_escape, nameVal]
+  split
+  · rfl
+  · split <;> rfl
+
+/-- the parser state inside `graph [ … ]` -/
+def inGraph (cur : List (Str × Val)) : PState := ⟨[⟨"graph".toList, []⟩], cur, .wantKey, false⟩
+
+theorem runP_node (i : Nat) (p : Nat × Option Bool) (cur : List (Str × Val)) (rest : List Tok) :
+    runP (inGraph cur) ((nodeLinesT i p).flatMap (·.2) ++ rest) =
+      runP (inGraph (("node".toList, nodeVal i p) :: cur)) rest := by
+  obtain ⟨v, b⟩ := p
+  have hd : ¬ (maxDepth ≤ 1) := by decide
+  cases b with
+  | none =>
+    simp [nodeLinesT, runP, step, inGraph, keyT, PState.push, valOfString_natStr, nodeVal, hd]
+  | some b =>
+    cases b <;> simp [nodeLinesT, runP, step, inGraph, keyT, PState.push, valOfString_natStr, nodeVal, hd]
+
+theorem runP_nodes (ps : List (Nat × Option Bool)) : ∀ (i : Nat) (cur : List (Str × Val)) (rest : List Tok),
+    runP (inGraph cur) ((nodesLinesT i ps).flatMap (·.2) ++ rest) =
+      runP (inGraph ((nodeItems i ps).reverse ++ cur)) rest := by
+  induction ps with
+  | nil => intro i cur rest; rfl
+  | cons p ps ih =>
+    intro i cur rest
+    simp only [nodesLinesT, List.flatMap_append, List.append_assoc, runP_node, ih, nodeItems, List.reverse_cons,
+      List.append_assoc, List.singleton_append]
+
+theorem runP_edge (e : Nat × Nat) (cur : List (Str × Val)) (rest : List Tok) :
+    runP (inGraph cur) ((edgeLinesT e).flatMap (·.2) ++ rest) =
+      runP (inGraph (("edge".toList, edgeVal e) :: cur)) rest := by
+  have hd : ¬ (maxDepth ≤ 1) := by decide
+  simp [edgeLinesT, runP, step, inGraph, keyT, PState.push, edgeVal, hd]
+
+theorem runP_edges (es : List (Nat × Nat)) : ∀ (cur : List (Str × Val)) (rest : List Tok),
+    runP (inGraph cur) ((es.flatMap edgeLinesT).flatMap (·.2) ++ rest) =
+      runP (inGraph ((edgeItems es).reverse ++ cur)) rest := by
+  induction es with
+  | nil => intro cur rest; rfl
+  | cons e es ih =>
+    intro cur rest
+    simp only [List.flatMap_cons, List.flatMap_append, List.append_assoc, runP_edge, ih, edgeItems, List.map_cons,
+      List.reverse_cons, List.append_assoc, List.singleton_append]
+
+def headToks (X : NxOut) : List Tok :=
+  (if X.directed then [keyT "directed", .int 1] else []) ++
+  (match X.name with
+   | none => []
+   | some nm => [keyT "name", .str (escape nm)])
+
+theorem gmlLinesT_toks (X : NxOut) : (gmlLinesT X).flatMap (·.2) =
+    [keyT "graph", .lb] ++ (headToks X ++ ((nodesLinesT 0 X.nodes).flatMap (·.2) ++
+      (((nxEdges X.directed X.nodes.length X.tedges).flatMap edgeLinesT).flatMap (·.2) ++ [.rb]))) := by
+  unfold gmlLinesT headToks
+  cases X.directed <;> cases X.name <;> simp [List.flatMap_append]
+
+theorem runP_head (X : NxOut) (rest : List Tok) :
+    runP (inGraph []) (headToks X ++ rest) = runP (inGraph (headItems X).reverse) rest := by
+  unfold headToks headItems
+  cases X.directed <;> cases X.name <;>
+    simp [runP, step, inGraph, keyT, PState.push, valOfString_escape]
+
+theorem parseToks_gmlToks (X : NxOut) : parseToks (gmlToks X) = .ok [("graph".toList, .dict (graphItems X))] := by
+  unfold parseToks gmlToks
+  rw [gmlLinesT_toks]
+  simp only [List.append_assoc]
+  have hd : ¬ (maxDepth ≤ 0) := by decide
+  have h0 : ∀ rest, runP initP ([keyT "graph", .lb] ++ rest) = runP (inGraph []) rest := by
+    intro rest
+    simp [runP, step, initP, inGraph, keyT, hd]
+  rw [h0, runP_head, runP_nodes, runP_edges]
+  simp [runP, step, inGraph, graphItems, List.reverse_append]
+
 end Cnfgen.Gml
